@@ -89,7 +89,18 @@ type GlobalFact struct {
 	Pkg string
 }
 
+type CoverSpec struct {
+	Func   string
+	Type   string
+	Except []string
+	Props  []string
+	Pkg    string
+	File   string
+	Line   int
+}
+
 type SpecFile struct {
+	Covers    []*CoverSpec
 	Pkg       string
 	Contracts []*Contract
 	Funs      []SpecFun
@@ -286,6 +297,7 @@ func parseSpecFile(path, pkg string) (*SpecFile, error) {
 	sf := &SpecFile{Pkg: pkg}
 	var cur *Contract
 	var curLemma *Lemma
+	var curCover *CoverSpec
 	type pend struct {
 		kind string
 		arg  string
@@ -335,6 +347,7 @@ func parseSpecFile(path, pkg string) (*SpecFile, error) {
 		case "func", "interface", "functype":
 			cur = &Contract{Pkg: pkg, LoopInv: map[int][]Clause{}, File: path, Line: p.line}
 			curLemma = nil
+			curCover = nil
 			name := p.text
 			if p.kind == "interface" || p.kind == "functype" {
 				// Name(params...)
@@ -351,9 +364,27 @@ func parseSpecFile(path, pkg string) (*SpecFile, error) {
 			}
 			cur.FuncName = strings.TrimSpace(name)
 			sf.Contracts = append(sf.Contracts, cur)
+		case "covers":
+			// covers <func> <Type> [except f1 f2 ...]
+			fs := strings.Fields(p.text)
+			if len(fs) < 2 {
+				return nil, fmt.Errorf("%s:%d: bad covers", path, p.line)
+			}
+			cv := &CoverSpec{Func: fs[0], Type: fs[1], Pkg: pkg, File: path, Line: p.line}
+			if len(fs) > 2 {
+				if fs[2] != "except" {
+					return nil, fmt.Errorf("%s:%d: covers: expected 'except'", path, p.line)
+				}
+				cv.Except = fs[3:]
+			}
+			sf.Covers = append(sf.Covers, cv)
+			curCover = cv
+			cur = nil
+			curLemma = nil
 		case "lemma":
 			curLemma = &Lemma{Name: strings.TrimSuffix(strings.TrimSpace(p.text), ":"), Pkg: pkg, Line: p.line, File: path}
 			cur = nil
+			curCover = nil
 			sf.Lemmas = append(sf.Lemmas, curLemma)
 		case "var":
 			if curLemma != nil {
@@ -365,6 +396,8 @@ func parseSpecFile(path, pkg string) (*SpecFile, error) {
 				cur.Props = ps
 			} else if curLemma != nil {
 				curLemma.Props = ps
+			} else if curCover != nil {
+				curCover.Props = ps
 			}
 		case "requires", "ensures", "assert":
 			if curLemma != nil {
@@ -482,7 +515,21 @@ func parseSpecFile(path, pkg string) (*SpecFile, error) {
 		case "fun":
 			// fun name(Int, Int) Int
 			i := strings.Index(p.text, "(")
-			j := strings.LastIndex(p.text, ")")
+			j := -1
+			if i >= 0 {
+				d := 0
+				for k := i; k < len(p.text); k++ {
+					if p.text[k] == '(' {
+						d++
+					} else if p.text[k] == ')' {
+						d--
+						if d == 0 {
+							j = k
+							break
+						}
+					}
+				}
+			}
 			if i < 0 || j < i {
 				return nil, fmt.Errorf("%s:%d: bad fun", path, p.line)
 			}
